@@ -58,3 +58,8 @@ package spec
 //@   property C12, C18:safety
 //@   ensures millis: unixNano(t) >= 0 ==> result == unixNano(t) / 1000000
 //@   assigns nothing
+
+//@ func (SenderID).IsUserID
+//@   property C18:safety
+//@   inline
+//@   ensures sigil: result <==> (len(s) > 0 && s[0] == 64)
